@@ -261,7 +261,8 @@ pub fn te_spelling(rng: &mut Rng) -> (Vec<u8>, Vec<u8>) {
 
 /// A well-formed response with the given framing (0 chunked, 1 length, 2 close).
 pub fn gen_valid(rng: &mut Rng, framing: u64, big: bool) -> RespSpec {
-    let status = *rng.pick(&[200u16, 200, 200, 201, 206, 404, 500, 299, 999]);
+    // (3xx: the five followed statuses are handed to the caller when following is off, every other 3xx always)
+    let status = *rng.pick(&[200u16, 200, 200, 201, 206, 404, 500, 299, 999, 300, 301, 305, 307, 399, 200]);
     let (te_name, te_value) = te_spelling(rng);
     let body = match framing {
         0 => {
